@@ -7,7 +7,7 @@ from ..common import all_conds, conds_at, mro_methods, nshow, outer_field, paths
 from ..effects import Effects, fmt_eff
 from ..expr import C, SELF, canon, norm, show, strip_epochs, walk
 from ..model import AnalysisError
-from ._setops import combine_rule
+from ._setops import combine_rule, similarity_components
 
 EXPL = ("(a) monotone storage: every element store into the bit array reachable outside clear() is old|m at the index it read "
         "(normal form), and the array is rebound only from constructors/loaders (effect analysis over the resolved call graph); "
@@ -312,6 +312,7 @@ def check(prog, rep, tier):
     rep.rule("C01.expanding-insert-last", "insertion goes to the newest sub-filter", floor=1)
     rep.rule("C01.expanding-same-params", "all sub-filters are constructed with the same parameters", floor=2)
     rep.rule("C01.union-or", "union is cell-wise OR over the full range", floor=2)
+    rep.rule("C01.union-compatible", "union combines only filters with equal hash count, bit count and probe hash (else positions do not correspond and keys are lost)", floor=2)
     rep.rule("C01.loader-payload", "every loader path assigns the bit array from its input", floor=6)
     rep.assume("a user-supplied hash function is deterministic (C18 decides it for the shipped strategies)")
     E = Effects(prog)
@@ -319,6 +320,7 @@ def check(prog, rep, tier):
         storage_rules(prog, rep, E, ctx)
         add_check_agreement(prog, rep, ctx)
         combine_rule(prog, rep, "C01.union-or", ctx, "union", "|")
+        similarity_components(prog, rep, "C01.union-compatible", ctx)
     expanding_rules(prog, rep, E)
     loader_payload(prog, rep)
 
@@ -342,6 +344,7 @@ MUTANTS = [
     Mutant("expanding add inserts into _blooms[0]", _E, replace_expr("ExpandingBloomFilter", "add_alt", "self._blooms[-1]", "self._blooms[0]"), rule="C01.expanding-insert"),
     Mutant("_parse_blooms builds sub-filters with default hash", _E, replace_expr("ExpandingBloomFilter", "_parse_blooms", "BloomFilter(est_elements=self.__est_elements, false_positive_rate=self.__fpr, hash_function=self.__hash_func)", "BloomFilter(est_elements=self.__est_elements, false_positive_rate=self.__fpr)"), rule="C01.expanding-same"),
     Mutant("union | -> ^", _B, swap_binop("BloomFilter", "union", _ast.BitOr, _ast.BitXor), rule="C01.union"),
+    Mutant("similarity compares the byte length instead of the bit count", _B, replace_stmt("BloomFilter", "_verify_bloom_similarity", "same_bits = ", "same_bits = self.bloom_length != second.bloom_length"), rule="C01.union-compatible"),
     Mutant("frombytes without _load", _B, del_stmt("BloomFilter", "frombytes", "blm._load("), rule="C01.loader"),
     Mutant("_load_hex: array from zeros", _B, replace_expr("BloomFilter", "_load_hex", "unhexlify(hex_string[:-offset])", "bytes(self._bloom_length)"), rule="C01.loader"),
     Mutant("estimate_elements resets a saturated filter", _B, replace_stmt("BloomFilter", "estimate_elements", "return -1", "self._bloom = array(self._typecode, [0]) * self._bloom_length\nreturn -1"), rule="C01.no-rebind"),
